@@ -38,6 +38,15 @@ class TreeMon:
             self.hoo_ceils, self.hoo_bound, self.hoo_exact_integer = C.hoo_depth_bounds(P["n"], P["nu"], P["rho"])
             if self.hoo_exact_integer:
                 self.obs("hoo_bound_exactly_integer_runs")
+            # "the root is always split once at construction" - whatever the depth bound says (it is negative for
+            # nu*sqrt(n) <= rho)
+            root = self.part.get_root()
+            self.obs("hoo_initial_trees_checked")
+            if self.hoo_ceils and max(self.hoo_ceils) < 0:
+                self.obs("hoo_runs_with_negative_depth_bound")
+            if not root.get_children() or self.part.get_depth() != 1:
+                self.sink.v("C06:T_HOO_root_not_split_exactly_once_at_construction", depth=self.part.get_depth(),
+                            bound=self.hoo_bound)
         for n in C.all_nodes(self.part):
             self.hist.setdefault(id(n), [])
         self.init_nodes = len(self.hist)
